@@ -3,7 +3,7 @@
    linearisation replayed through the state machine), and of Distributor.AddChain. *)
 From Coq Require Import ZArith NArith Bool List.
 From V Require Import Base.GoInt Base.CaseLib gen.Windows gen.Policy gen.Races
-     Submission.SubmitModel.
+     Submission.SubmitModel Submission.WeightModel.
 Import ListNotations.
 Open Scope Z_scope.
 
@@ -17,6 +17,13 @@ Inductive ev :=
 | EDone                                   (* GetSCTs returned *)
 | EHang.                                  (* last event: GetSCTs has NOT returned and never will by itself - every
                                              goroutine of the call is blocked and no timer is left (virtual time) *)
+
+(* one observed step of a history on the ctpolicy group API (weights in quarters) *)
+Inductive wop :=
+| WSetAll (g : N) (ws : list (N * Z)) (err : bool) (after : list (N * Z))  (* SetLogWeights; LogWeights afterwards *)
+| WSetOne (g : N) (l : N) (w : Z) (err : bool) (after : list (N * Z))      (* SetLogWeight; LogWeights afterwards *)
+| WSession (g : N) (sess : list N)                                         (* GetSubmissionSession *)
+| WSubmit (evs : list ev) (scts : list N) (ok : bool) (reqs : list (N * N)). (* GetSCTs over the groups as they are now *)
 
 Inductive case :=
 (* ll.SelectByStatus(usable).Compatible(cert, root, roots) then policy.LogsByGroup:
@@ -34,6 +41,9 @@ Inductive case :=
         (outcome_class : N)   (* 0 ran, 1 chain refused, 2 not enough compatible logs *)
         (evs : list ev) (scts : list N) (ok : bool) (reqs : list (N * N))
 | CPost (idx par dur obs : Z)
+(* a history of accepted and refused weight updates, sessions and submissions over explicit
+   groups (name, logs, min, isbase, initial weights) *)
+| CWeights (groups : list (N * list N * Z * bool * list (N * Z))) (ops : list wop)
 | CNote (n : N).
 
 Definition roots_fn (roots : list (N * list N)) : logroots :=
@@ -141,6 +151,49 @@ Definition model_dist pol ll roots dis full v na nbd nad : N * option cfg :=
                end
   end.
 
+(* ---- histories on the group API ---- *)
+Definition mk_wgroups (groups : list (N * list N * Z * bool * list (N * Z))) : list wgroup :=
+  map (fun g => match g with (n, logs, mn, isb, w) => mkWG n logs mn isb w end) groups.
+
+Definition same_w (a b : wmap) : bool :=
+  forallb (fun l => match wget a l, wget b l with Some x, Some y => x =? y | None, None => true | _, _ => false end)
+          (map fst a ++ map fst b).
+
+Definition wfind (gs : list wgroup) (n : N) : option wgroup := find (fun g => N.eqb (wg_name g) n) gs.
+Definition wreplace (gs : list wgroup) (g' : wgroup) : list wgroup :=
+  map (fun g => if N.eqb (wg_name g) (wg_name g') then g' else g) gs.
+
+(* the model's groups after the step, and whether the observation of the step agrees with it *)
+Definition wstep (gs : list wgroup) (o : wop) : list wgroup * bool :=
+  match o with
+  | WSetAll n ws err after =>
+      match wfind gs n with
+      | None => (gs, false)
+      | Some g => let r := set_weights g ws in
+                  (wreplace gs (fst r), Bool.eqb (snd r) err && same_w (wg_w (fst r)) after)
+      end
+  | WSetOne n l w err after =>
+      match wfind gs n with
+      | None => (gs, false)
+      | Some g => let r := set_weight g l w in
+                  (wreplace gs (fst r), Bool.eqb (snd r) err && same_w (wg_w (fst r)) after)
+      end
+  | WSession n sess =>
+      match wfind gs n with
+      | None => (gs, false)
+      | Some g => (gs, same_set sess (positive_logs g) && Nat.eqb (length sess) (length (positive_logs g)))
+      end
+  | WSubmit evs scts ok reqs => (gs, run_ok (map group_of_w gs) evs scts ok reqs)
+  end.
+
+(* (groups at the end, index of the first step that disagrees or -1) *)
+Fixpoint wreplay (gs : list wgroup) (ops : list wop) (i : Z) : list wgroup * Z :=
+  match ops with
+  | [] => (gs, -1)
+  | o :: rest => let r := wstep gs o in
+                 if snd r then wreplay (fst r) rest (i + 1) else (fst (wreplay (fst r) rest (i + 1)), i)
+  end.
+
 Definition check (cs : case) : bool :=
   match cs with
   | CGroups pol ll roots root na nbd nad obs =>
@@ -156,6 +209,7 @@ Definition check (cs : case) : bool :=
       | (k, Some c) => N.eqb k cls && run_ok c evs scts ok reqs
       end
   | CPost idx par dur obs => post_interval idx par dur =? obs
+  | CWeights groups ops => snd (wreplay (mk_wgroups groups) ops 0) =? -1
   | CNote _ => true
   end.
 
@@ -178,5 +232,9 @@ Definition explain (cs : case) :=
       | (k, Some c) => (Some (map (fun gr => (g_name gr, g_logs gr, g_min gr)) c), months_of nbd nad, explain_run c evs)
       end
   | CPost idx par dur _ => (None, post_interval idx par dur, ([], [], false, []))
+  (* the groups at the end of the history as (name, logs with positive weight, min); index of the first step that disagrees *)
+  | CWeights groups ops =>
+      let r := wreplay (mk_wgroups groups) ops 0 in
+      (Some (map (fun g => (wg_name g, positive_logs g, wg_min g)) (fst r)), snd r, ([], [], false, []))
   | CNote _ => (None, 0, ([], [], false, []))
   end.
